@@ -92,6 +92,19 @@ fn is_stdish(name: &str) -> bool {
     )
 }
 
+/// Small std combinators whose bodies the rules interpret instead of summarising (Option / Result
+/// methods, the `?` desugaring, Ordering helpers, mem::{swap, replace, take}).
+fn std_small(path: &str) -> bool {
+    path.starts_with("std::option::Option::<")
+        || path.starts_with("std::result::Result::<")
+        || ((path.starts_with("<std::option::Option<") || path.starts_with("<std::result::Result<"))
+            && (path.contains(" as std::ops::Try>::") || path.contains(" as std::ops::FromResidual")))
+        || path.starts_with("std::cmp::Ordering::")
+        || path == "std::mem::swap"
+        || path == "std::mem::replace"
+        || path == "std::mem::take"
+}
+
 fn span_loc(tcx: TyCtxt<'_>, sp: Span) -> (String, usize) {
     let sm = tcx.sess.source_map();
     let sp = sp.source_callsite();
@@ -749,7 +762,7 @@ impl<'tcx> Mono<'tcx> {
         }
         v.push(("has_body", J::B(true)));
         let body: &Body<'tcx> = tcx.instance_mir(inst.def);
-        if matches!(inst.def, InstanceKind::Item(_)) && !def.is_local() && !is_stdish(&kname) {
+        if matches!(inst.def, InstanceKind::Item(_)) && !def.is_local() && (!is_stdish(&kname) || std_small(&dps(tcx, def))) {
             self.extern_bodies.insert(def);
         }
         let mut calls = Vec::new();
